@@ -9,6 +9,7 @@ set -x
 git -C /repo worktree remove --force $wt 2>/dev/null
 /verif/tools/mkwt.sh cf-$prop-$v || exit 9
 cd $wt
+make -j5 >/dev/null 2>&1
 bash $src/run.sh $wt; echo "DEMO_CLEAN_RC=$?"
 git apply $src/patch.diff || { echo APPLY_FAILED; exit 8; }
 make -j5 >/dev/null 2>&1; echo "BUILD_RC=$?"
